@@ -537,6 +537,7 @@ class Interpolation(object):
             x = (xl + xh) / 2.0  # Start in the middle of interval
             y = self.__call__(x)
             num_iter = 0  # Count the number of iterations
+            stalled = 0  # Consecutive steps that moved the same limit
             while abs(y) > self._tol:
                 if num_iter >= max_iter:
                     raise ValueError(
@@ -547,7 +548,12 @@ class Interpolation(object):
                 yp = self.derivative(x)
                 # If derivative is too small, switch to linear interpolation
                 if abs(yp) < 1e-3:
-                    x = (xl * yh - xh * yl) / (yh - yl)
+                    if abs(stalled) > 50:
+                        # Linear interpolation keeps moving the same limit
+                        # (root with a horizontal tangent): halve the bracket
+                        x = (xl + xh) / 2.0
+                    else:
+                        x = (xl * yh - xh * yl) / (yh - yl)
                     y = self.__call__(x)
                 else:
                     x = x - y / yp
@@ -561,9 +567,11 @@ class Interpolation(object):
                 if (y * yl) >= 0.0:
                     xl = x
                     yl = y
+                    stalled = stalled + 1 if stalled > 0 else 1
                 else:
                     xh = x
                     yh = y
+                    stalled = stalled - 1 if stalled < 0 else -1
             return x
         else:
             raise TypeError("Invalid input value")
